@@ -219,6 +219,13 @@ def supplied_case(acc, total, engine_name):
             s = float(model.datavector().sum())
             if not abs(s - total) <= 1e-9 * total:
                 fails.append('datavector sums to %.12g' % s)
+            # boundary input: no measurements at all (how MWEM+PGM initialises its model under bounded adjacency), also through the infer alias
+            for how in ('estimate', 'infer'):
+                e0 = FactoredInference(dom, iters=3)
+                m0 = getattr(e0, how)([], total=total, engine=engine_name)
+                sums0 = [float(m0.project(t).datavector().sum()) for t in [('A',), ('B', 'A')]] + [float(m0.datavector().sum())]
+                if m0.total != total or any(abs(x - total) > 1e-9 * total for x in sums0):
+                    fails.append('%s([], total=%r): model.total=%r, answers sum to %r' % (how, total, m0.total, sums0))
         elif engine_name == 'Local':
             from mbi import RegionGraph, FactorGraph
             cliques = [m_[3] for m_ in ms]
